@@ -641,19 +641,33 @@ func (w *World) sharedExporterFactory() exporter.Factory {
 // connectors ------------------------------------------------------------------
 
 func (w *World) connectorFactory(c Connector) connector.Factory {
-	mk := func(from, to string, id component.ID, next any) (*comp, consumers) {
+	mk := func(from, to string, id component.ID, next any) (*comp, consumers, error) {
 		key := ConnKey(from, to, id.String())
 		w.count(key)
+		if c.Route != "" {
+			// routing style: the consumer handed to a connector must be a router
+			if _, err := routed(next, to, c.Route); err != nil {
+				return nil, consumers{}, err
+			}
+		}
 		cp := w.newComp(key, key)
 		elem := fmt.Sprintf("c|%s>%s|%s|%d", from, to, id.String(), cp.serial)
 		return cp, newConsumers(false, func(ctx context.Context, v any) error {
 			ctx = withHop(ctx, elem)
+			dst := next
+			if c.Route != "" {
+				chosen, err := routed(next, to, c.Route)
+				if err != nil {
+					return err
+				}
+				dst = chosen
+			}
 			if c.Forward && from == to {
-				return consumeAny(ctx, next, v)
+				return consumeAny(ctx, dst, v)
 			}
 			tag, trail := readPayload(v)
-			return consumeAny(ctx, next, newPayload(to, tag, extend(trail, elem)))
-		})
+			return consumeAny(ctx, dst, newPayload(to, tag, extend(trail, elem)))
+		}), nil
 	}
 	// A factory without any profiles pair is a plain connector.Factory (the graph must then treat every
 	// profiles pair as unsupported); otherwise an xconnector.Factory with exactly the generated cells.
@@ -665,7 +679,10 @@ func (w *World) connectorFactory(c Connector) connector.Factory {
 	var xo []xconnector.FactoryOption
 	if c.Supports("logs", "logs") {
 		fLogsToLogs := func(_ context.Context, s connector.Settings, _ component.Config, n consumer.Logs) (connector.Logs, error) {
-			cp, cs := mk("logs", "logs", s.ID, n)
+			cp, cs, err := mk("logs", "logs", s.ID, n)
+			if err != nil {
+				return nil, err
+			}
 			return logsComp{cp, cs.Logs}, nil
 		}
 		if usesProfiles {
@@ -676,7 +693,10 @@ func (w *World) connectorFactory(c Connector) connector.Factory {
 	}
 	if c.Supports("logs", "metrics") {
 		fLogsToMetrics := func(_ context.Context, s connector.Settings, _ component.Config, n consumer.Metrics) (connector.Logs, error) {
-			cp, cs := mk("logs", "metrics", s.ID, n)
+			cp, cs, err := mk("logs", "metrics", s.ID, n)
+			if err != nil {
+				return nil, err
+			}
 			return logsComp{cp, cs.Logs}, nil
 		}
 		if usesProfiles {
@@ -687,7 +707,10 @@ func (w *World) connectorFactory(c Connector) connector.Factory {
 	}
 	if c.Supports("logs", "traces") {
 		fLogsToTraces := func(_ context.Context, s connector.Settings, _ component.Config, n consumer.Traces) (connector.Logs, error) {
-			cp, cs := mk("logs", "traces", s.ID, n)
+			cp, cs, err := mk("logs", "traces", s.ID, n)
+			if err != nil {
+				return nil, err
+			}
 			return logsComp{cp, cs.Logs}, nil
 		}
 		if usesProfiles {
@@ -698,14 +721,20 @@ func (w *World) connectorFactory(c Connector) connector.Factory {
 	}
 	if c.Supports("logs", "profiles") {
 		fLogsToProfiles := func(_ context.Context, s connector.Settings, _ component.Config, n xconsumer.Profiles) (connector.Logs, error) {
-			cp, cs := mk("logs", "profiles", s.ID, n)
+			cp, cs, err := mk("logs", "profiles", s.ID, n)
+			if err != nil {
+				return nil, err
+			}
 			return logsComp{cp, cs.Logs}, nil
 		}
 		xo = append(xo, xconnector.WithLogsToProfiles(fLogsToProfiles, stable))
 	}
 	if c.Supports("metrics", "logs") {
 		fMetricsToLogs := func(_ context.Context, s connector.Settings, _ component.Config, n consumer.Logs) (connector.Metrics, error) {
-			cp, cs := mk("metrics", "logs", s.ID, n)
+			cp, cs, err := mk("metrics", "logs", s.ID, n)
+			if err != nil {
+				return nil, err
+			}
 			return metricsComp{cp, cs.Metrics}, nil
 		}
 		if usesProfiles {
@@ -716,7 +745,10 @@ func (w *World) connectorFactory(c Connector) connector.Factory {
 	}
 	if c.Supports("metrics", "metrics") {
 		fMetricsToMetrics := func(_ context.Context, s connector.Settings, _ component.Config, n consumer.Metrics) (connector.Metrics, error) {
-			cp, cs := mk("metrics", "metrics", s.ID, n)
+			cp, cs, err := mk("metrics", "metrics", s.ID, n)
+			if err != nil {
+				return nil, err
+			}
 			return metricsComp{cp, cs.Metrics}, nil
 		}
 		if usesProfiles {
@@ -727,7 +759,10 @@ func (w *World) connectorFactory(c Connector) connector.Factory {
 	}
 	if c.Supports("metrics", "traces") {
 		fMetricsToTraces := func(_ context.Context, s connector.Settings, _ component.Config, n consumer.Traces) (connector.Metrics, error) {
-			cp, cs := mk("metrics", "traces", s.ID, n)
+			cp, cs, err := mk("metrics", "traces", s.ID, n)
+			if err != nil {
+				return nil, err
+			}
 			return metricsComp{cp, cs.Metrics}, nil
 		}
 		if usesProfiles {
@@ -738,14 +773,20 @@ func (w *World) connectorFactory(c Connector) connector.Factory {
 	}
 	if c.Supports("metrics", "profiles") {
 		fMetricsToProfiles := func(_ context.Context, s connector.Settings, _ component.Config, n xconsumer.Profiles) (connector.Metrics, error) {
-			cp, cs := mk("metrics", "profiles", s.ID, n)
+			cp, cs, err := mk("metrics", "profiles", s.ID, n)
+			if err != nil {
+				return nil, err
+			}
 			return metricsComp{cp, cs.Metrics}, nil
 		}
 		xo = append(xo, xconnector.WithMetricsToProfiles(fMetricsToProfiles, stable))
 	}
 	if c.Supports("traces", "logs") {
 		fTracesToLogs := func(_ context.Context, s connector.Settings, _ component.Config, n consumer.Logs) (connector.Traces, error) {
-			cp, cs := mk("traces", "logs", s.ID, n)
+			cp, cs, err := mk("traces", "logs", s.ID, n)
+			if err != nil {
+				return nil, err
+			}
 			return tracesComp{cp, cs.Traces}, nil
 		}
 		if usesProfiles {
@@ -756,7 +797,10 @@ func (w *World) connectorFactory(c Connector) connector.Factory {
 	}
 	if c.Supports("traces", "metrics") {
 		fTracesToMetrics := func(_ context.Context, s connector.Settings, _ component.Config, n consumer.Metrics) (connector.Traces, error) {
-			cp, cs := mk("traces", "metrics", s.ID, n)
+			cp, cs, err := mk("traces", "metrics", s.ID, n)
+			if err != nil {
+				return nil, err
+			}
 			return tracesComp{cp, cs.Traces}, nil
 		}
 		if usesProfiles {
@@ -767,7 +811,10 @@ func (w *World) connectorFactory(c Connector) connector.Factory {
 	}
 	if c.Supports("traces", "traces") {
 		fTracesToTraces := func(_ context.Context, s connector.Settings, _ component.Config, n consumer.Traces) (connector.Traces, error) {
-			cp, cs := mk("traces", "traces", s.ID, n)
+			cp, cs, err := mk("traces", "traces", s.ID, n)
+			if err != nil {
+				return nil, err
+			}
 			return tracesComp{cp, cs.Traces}, nil
 		}
 		if usesProfiles {
@@ -778,35 +825,50 @@ func (w *World) connectorFactory(c Connector) connector.Factory {
 	}
 	if c.Supports("traces", "profiles") {
 		fTracesToProfiles := func(_ context.Context, s connector.Settings, _ component.Config, n xconsumer.Profiles) (connector.Traces, error) {
-			cp, cs := mk("traces", "profiles", s.ID, n)
+			cp, cs, err := mk("traces", "profiles", s.ID, n)
+			if err != nil {
+				return nil, err
+			}
 			return tracesComp{cp, cs.Traces}, nil
 		}
 		xo = append(xo, xconnector.WithTracesToProfiles(fTracesToProfiles, stable))
 	}
 	if c.Supports("profiles", "logs") {
 		fProfilesToLogs := func(_ context.Context, s connector.Settings, _ component.Config, n consumer.Logs) (xconnector.Profiles, error) {
-			cp, cs := mk("profiles", "logs", s.ID, n)
+			cp, cs, err := mk("profiles", "logs", s.ID, n)
+			if err != nil {
+				return nil, err
+			}
 			return profilesComp{cp, cs.Profiles}, nil
 		}
 		xo = append(xo, xconnector.WithProfilesToLogs(fProfilesToLogs, stable))
 	}
 	if c.Supports("profiles", "metrics") {
 		fProfilesToMetrics := func(_ context.Context, s connector.Settings, _ component.Config, n consumer.Metrics) (xconnector.Profiles, error) {
-			cp, cs := mk("profiles", "metrics", s.ID, n)
+			cp, cs, err := mk("profiles", "metrics", s.ID, n)
+			if err != nil {
+				return nil, err
+			}
 			return profilesComp{cp, cs.Profiles}, nil
 		}
 		xo = append(xo, xconnector.WithProfilesToMetrics(fProfilesToMetrics, stable))
 	}
 	if c.Supports("profiles", "traces") {
 		fProfilesToTraces := func(_ context.Context, s connector.Settings, _ component.Config, n consumer.Traces) (xconnector.Profiles, error) {
-			cp, cs := mk("profiles", "traces", s.ID, n)
+			cp, cs, err := mk("profiles", "traces", s.ID, n)
+			if err != nil {
+				return nil, err
+			}
 			return profilesComp{cp, cs.Profiles}, nil
 		}
 		xo = append(xo, xconnector.WithProfilesToTraces(fProfilesToTraces, stable))
 	}
 	if c.Supports("profiles", "profiles") {
 		fProfilesToProfiles := func(_ context.Context, s connector.Settings, _ component.Config, n xconsumer.Profiles) (xconnector.Profiles, error) {
-			cp, cs := mk("profiles", "profiles", s.ID, n)
+			cp, cs, err := mk("profiles", "profiles", s.ID, n)
+			if err != nil {
+				return nil, err
+			}
 			return profilesComp{cp, cs.Profiles}, nil
 		}
 		xo = append(xo, xconnector.WithProfilesToProfiles(fProfilesToProfiles, stable))
@@ -815,6 +877,47 @@ func (w *World) connectorFactory(c Connector) connector.Factory {
 		return xconnector.NewFactory(component.MustNewType(typeOf(c.ID)), newCfg, xo...)
 	}
 	return connector.NewFactory(component.MustNewType(typeOf(c.ID)), newCfg, o...)
+}
+
+// routed asserts that next is the router the graph hands to connectors and
+// returns the consumer for the subset of downstream pipelines the mode picks.
+func routed(next any, to, mode string) (any, error) {
+	pick := func(ids []pipeline.ID) []pipeline.ID {
+		sort.Slice(ids, func(a, b int) bool { return ids[a].String() < ids[b].String() })
+		var out []pipeline.ID
+		for _, k := range RoutePick(mode, len(ids)) {
+			out = append(out, ids[k])
+		}
+		return out
+	}
+	errNoRouter := fmt.Errorf("expected consumer to be a connector router (%s)", to)
+	switch to {
+	case "logs":
+		r, ok := next.(connector.LogsRouterAndConsumer)
+		if !ok {
+			return nil, errNoRouter
+		}
+		return r.Consumer(pick(r.PipelineIDs())...)
+	case "metrics":
+		r, ok := next.(connector.MetricsRouterAndConsumer)
+		if !ok {
+			return nil, errNoRouter
+		}
+		return r.Consumer(pick(r.PipelineIDs())...)
+	case "traces":
+		r, ok := next.(connector.TracesRouterAndConsumer)
+		if !ok {
+			return nil, errNoRouter
+		}
+		return r.Consumer(pick(r.PipelineIDs())...)
+	case "profiles":
+		r, ok := next.(xconnector.ProfilesRouterAndConsumer)
+		if !ok {
+			return nil, errNoRouter
+		}
+		return r.Consumer(pick(r.PipelineIDs())...)
+	}
+	return nil, fmt.Errorf("topo: unknown signal %s", to)
 }
 
 // extensions ------------------------------------------------------------------
